@@ -120,6 +120,11 @@ func engineCABI(rc *RunCtx) *Outcome {
 	if !huge && w.Choose(5) == 4 {
 		pad = 1 + w.Choose(3)
 	}
+	// ... and the outputs buffer may have room for more timesteps than the inputs have
+	dT := 0
+	if !huge {
+		dT = []int{0, 0, 0, 1, 2}[w.Choose(5)]
+	}
 	c.refOut, c.refFin = nil, nil
 	if huge {
 		// tens of thousands of cells: the reference is the vectorised Go-API run on Go arrays
@@ -187,7 +192,7 @@ func engineCABI(rc *RunCtx) *Outcome {
 	}
 	d := theDriver
 	hdr := []int32{int32(len(c.Model)), int32(c.I), int32(nIn), int32(c.T), int32(rows), int32(c.P), int32(c.N), int32(width + pad),
-		0, int32(c.N), int32(nOut), int32(c.T), 0, 0}
+		0, int32(c.N), int32(nOut), int32(c.T + dT), 0, 0}
 	if hasStates {
 		hdr[8] = 1
 	}
@@ -232,7 +237,7 @@ func engineCABI(rc *RunCtx) *Outcome {
 			return fail(err)
 		}
 	}
-	gout, err := getF64(d.out, c.N*nOut*c.T)
+	gout, err := getF64(d.out, c.N*nOut*(c.T+dT))
 	if err != nil {
 		return fail(err)
 	}
@@ -254,9 +259,18 @@ func engineCABI(rc *RunCtx) *Outcome {
 		for b := 0; b < nOut; b++ {
 			for t := 0; t < c.T; t++ {
 				o.Checks++
-				if g, e := gout[(i*nOut+b)*c.T+t], c.refOut[i][b*c.T+t]; !bitsEq(g, e) {
+				if g, e := gout[(i*nOut+b)*(c.T+dT)+t], c.refOut[i][b*c.T+t]; !bitsEq(g, e) {
 					o.fail("c-abi-output-differs", "cabi/output/"+c.Model, "%s through the C ABI: cell %d output %s[%d] = %v, the Go API gives %v (cells=%d sets=%d blocks=%d T=%d init_states=%v)",
 						c.Model, i, c.desc.Outputs[b], t, g, e, c.N, c.P, c.I, c.T, initStates)
+					return o
+				}
+			}
+		}
+		for b := 0; b < nOut; b++ {
+			for t := c.T; t < c.T+dT; t++ {
+				o.Checks++
+				if g := gout[(i*nOut+b)*(c.T+dT)+t]; g != 0 {
+					o.fail("c-abi-output-differs", "cabi/output-surplus/"+c.Model, "%s through the C ABI: cell %d output %s: the surplus timestep %d of the caller's longer output row holds %v (the series has %d steps)", c.Model, i, c.desc.Outputs[b], t, g, c.T)
 					return o
 				}
 			}
@@ -276,6 +290,9 @@ func engineCABI(rc *RunCtx) *Outcome {
 		}
 	}
 	o.probe("cabi_job")
+	if dT > 0 {
+		o.probe("cabi_output_rows_longer_than_the_series")
+	}
 	if pad > 0 && hasStates {
 		o.probe("cabi_states_buffer_wider_than_the_model_needs")
 	}
